@@ -534,14 +534,6 @@ impl CodegenContext {
         Ok(symbol_nx)
     }
 
-    fn remove_symbol<I: Into<IdentifierPath>>(&mut self, id: I) {
-        let id = id.into();
-        let path = self.current_scope.join(&id);
-        if let Some(nx) = self.symbols.try_index(self.symbols.root, path) {
-            self.symbols.remove(nx);
-        }
-    }
-
     pub fn get_evaluator(&self) -> Evaluator {
         self.get_evaluator_for_scope(self.current_scope_nx)
     }
@@ -1074,9 +1066,10 @@ impl CodegenContext {
                                 "index",
                                 s.symbol(expr.span, index, SymbolType::Constant),
                             )?;
-                            let result = s.emit_tokens(&block.inner);
-                            s.remove_symbol("index");
-                            result
+                            // 'index' stays where it is: it lives in the scope of this iteration alone. Taking it out again would
+                            // hand its place in the symbol table to the next symbol that comes along (the 'index' of another
+                            // loop), and with it what is known about where this one is used.
+                            s.emit_tokens(&block.inner)
                         })?;
                     }
                 }
